@@ -10,9 +10,9 @@ SeqsUpTo(Chars, n) == IF n = 0 THEN {<<>>}
 
 AppSeqsDef == { <<>>, <<"A">>, <<"A","B">>, <<"A","A">>, <<"B","A","B">>, <<"A","B","A","A">>,
                 <<"A","A","B","C">>, <<"C","A","B","A","C","B">>, <<"B","B","A","C","A">> }
-RootRefSeqsDef == { <<>>, <<"A">>, <<"Z","A">>, <<"B","Z","B">> }
+RootRefSeqsDef == { <<>>, <<"A">>, <<"Z","A">>, <<"B","Z","B">>, <<"Z","Y","A">>, <<"A","Y","Z","X">> }
 NamesDef == { <<"a">>, <<"a",":",":","b">>, <<"a",":","b">>, <<>>, <<"a",":",":">>, <<":",":","a">>, <<"a",":",":",":",":","b">> }
-RefsDef == { <<>>, <<"A">>, <<"Z","B">>, <<"B","A","Y","A">> }
+RefsDef == { <<>>, <<"A">>, <<"Z","B">>, <<"B","A","Y","A">>, <<"Y","Z","B","X","W">> }
 LoggerPoolDef == [name : NamesDef, refs : RefsDef]
 EmptySeqSet == {<<>>}
 
